@@ -3,7 +3,7 @@
     receiver = Assembler model.  The composition theorem follows from the SendBuffer soundness
     (every produced frame is a slice of what was written) and the Assembler prefix theorem. *)
 From QV Require Import Lib.Tac Lib.Bytes Lib.Corr Model.RangeSet Model.Assembler Model.SendBuffer
-  Proofs.HeapProofs Proofs.AssemblerProofs Proofs.SendBufferProofs.
+  Proofs.HeapProofs Proofs.AssemblerProofs Proofs.SendBufferProofs Proofs.AssemblerOnceProofs.
 Open Scope Z_scope.
 
 Module A := AssemblerProofs.
@@ -216,4 +216,16 @@ Proof.
   - eapply Forall_impl; [|exact R]. intros e [E B]. split; [|exact B].
     destruct B as [B|B]; [rewrite B; unfold S.slice, SendBuffer.slice, zlen; cbn; reflexivity|].
     rewrite E at 1. unfold zlen in *. now rewrite Conv by lia.
+Qed.
+
+(** [stream_exactly_once]: for every schedule of the composed system, every stream offset is covered
+    by at most one chunk returned to the receiving application (ordered or unordered reads, before
+    or after the mode switch), whatever the network duplicates or re-delivers. *)
+Theorem stream_exactly_once sched st' x :
+  Forall sched_ok sched -> sys_exec sys_init sched = Some st' ->
+  AssemblerOnceProofs.cnt x (events st') <= 1.
+Proof.
+  intros Hok H. apply sys_exec_inv in H; auto; [|apply S.inv_init|constructor].
+  destruct H as (_ & _ & _ & ros & new & Ok & Ex & Ev). cbn [events sys_init app] in Ev. cbn [asm sys_init] in Ex.
+  rewrite Ev. eapply AssemblerOnceProofs.delivered_at_most_once; eauto.
 Qed.
